@@ -3,7 +3,7 @@
    Compiled from /verif/ocaml so that xmodel_core.ml lands there. *)
 Require Extraction.
 Require Import ExtrOcamlBasic.
-From X Require Import Base Arr Consts BitToolsSpec BitToolsGen BitVector CompactVector Dac Tail Trie Serial Builder Spec Wf.
+From X Require Import Base Arr Consts BitToolsSpec BitToolsGen BitVector CompactVector Dac Tail Trie Serial Builder Spec Wf History Conc Tools.
 Extraction Language OCaml.
 Extraction "xmodel_core.ml"
   (* words *) popcount popcount_intr msb msb_intr uleq_step_9 byte_counts bit_position select_in_word select_in_word_intr
@@ -18,4 +18,6 @@ Extraction "xmodel_core.ml"
   (* serial *) save memory_in_bytes load mmap get_type_id enc_bv enc_cv enc_bc enc_tail fs_load fs_save fs_type_id
   (* builder *) build build_logical own_table table_ok
   (* certificate *) assemble disassemble lwf_b cert_check
+  (* histories, schedules *) hstep hrun astep arun hop_ok dict_run dict_seq
+  (* tools *) split_lines sort_dedup tool_build tool_build_stdout tool_enumerate tool_lookup tool_decode tool_prefix tool_predictive
   (* spec *) valid_keys spec_member spec_prefixes spec_completions spec_max_length spec_alphabet spec_bin_mode spec_mp_nodes.
